@@ -23,3 +23,9 @@ claim('C10', 'fault_enumeration', 'complete enumeration of (option kind x prepar
       'Every refusing call of the statement is issued against every prepared option state with the offending element / failing callback at every position; the oracle needs no model: '
       'the call must report failure and the full dump (values, order, annotation, RESET/MODIFIED/COMMENTS bits) must be identical before and after. The space is finite and is enumerated completely.',
       'Trusts: the dump walks everything the statement names (values, count, order, annotation, marker bits) through public accessors and public struct fields.')
+
+claim('C11', 'exploration', 'random trees x generated and systematically broken paths; by-path API compared with a C walk using single-level accessors only (differential monitor on real executions, ASan+UBSan build, hang watchdog)',
+      'For random trees (titles with | \' \\ = blanks, empty title) every option/section is addressed through generated path strings in all qualifier forms and the pointer returned by '
+      'cfg_getopt/cfg_getsec is compared (by position) with step-by-step navigation; by-path setters and cfg_rmsec must change exactly that object; 12 classes of broken paths must yield '
+      'not-found, terminate and change nothing. The path mini-language is small but has its own tokenizer; randomised trees with systematic path derivation is the level that reaches its corners.',
+      'Trusts: the generator\'s knowledge of which broken variants cannot resolve (names with a suffix that does not exist, indices >= size, ...); trees are random, not exhaustive.')
